@@ -280,7 +280,11 @@ func (namespaceManager *NamespaceManager) GetPrefixMappingForExpansion(uriExpans
 
 func (namespaceManager *NamespaceManager) GetPrefixToExpansionMap() (result map[string]string) {
 	namespaceManager.lock.Lock()
-	result = namespaceManager.prefixToExpansionMapping
+	// hand out a copy: the manager's own map keeps growing while callers iterate and serialise what they got
+	result = make(map[string]string, len(namespaceManager.prefixToExpansionMapping))
+	for k, v := range namespaceManager.prefixToExpansionMapping {
+		result[k] = v
+	}
 	namespaceManager.lock.Unlock()
 	return
 }
